@@ -30,10 +30,11 @@ flagged `mixed: false` although it holds a `MixedContainer`); `mixed_mode` is al
 Key / KeyValueSeparator / ObjectValue states, so the `[b'=', ..] if mixed_mode` arm of
 KeyValueSeparator is dead code.
 
-Not proved here: `Json.WfTape` / `Json.wfTapeB` for the parsed tape (C16).  `Gr` is too weak for
-it as it stands: behind a `MixedContainer` it accepts any token that is not a container start as an
-item, while `Json.itemsAt` wants a `Header` item to be followed by its container (true of the
-parser by `HInv`, but not recorded in `Gr .items`), and `Gr.scal` admits parameter tokens as values.
+C16: `Proofs/TextTapeJsonWf.lean` reads a document tree off the same derivation
+(`C16_parsed_tape_wf : parse input = .ok T b → Json.WfTape (toJsonTape T)`), which is why `Gr` is
+sharper than `Dom.wfTape` needs: values are scalars / containers / header + container, the tokens
+that may stand alone in a value list are listed (`Tok.isItem`), and a `Header` inside a value list
+is followed by its container.
 -/
 namespace Jomini.TextTape
 
